@@ -312,7 +312,7 @@ impl Leg for Python {
         v.class_if(seq.iter().any(|&b| b >= 0x80), "non-ascii");
         v.nontrivial = seq.len() >= 3;
         match crate::pyworker::ask(&serde_json::json!({"op": "cgr", "s": c.s, "seq": crate::pyworker::hex(&seq)})) {
-            Err(e) => v.fail("python-worker", e),
+            Err(e) => crate::pyworker::record_error(&mut v, e),
             Ok(r) => {
                 if all_nuc {
                     match r["ok"].as_array() {
@@ -342,6 +342,7 @@ pub fn run(ctx: &mut Ctx) {
     ctx.run_leg::<Reject>(n, false, 1000);
     let n = ctx.share(ctx.tier.pick(4_000, 60_000));
     ctx.run_leg::<Files>(n, true, 200);
+    crate::pyworker::infra_inconclusive(ctx);
 }
 
 pub fn replay(leg: &str, case: &serde_json::Value) -> Option<Result<Verdict, String>> {
